@@ -442,6 +442,9 @@ type c13ResPatch struct {
 
 type c13Profile struct {
 	name, matched, skipRes, hasProb, prob int
+	probPercent                           bool // spec.probability written as the string "<prob>%"
+	probInvalid                           bool // spec.probability is a string that is no percentage: the admission fails
+	pcMissing                             bool // spec.priorityClassName names no PriorityClass: the admission fails when applied
 	hasQoS                                bool
 	qos                                   string // spec.qosClass (non-empty when hasQoS)
 	hasPrio                               int
@@ -484,7 +487,8 @@ func (p *c13Profile) opLine() string {
 	if p.hasQoS {
 		q = c13EncStr(p.qos)
 	}
-	parts := []string{fmt.Sprintf("profile %d %d %d %d %d %s %d %d %d %d", p.name, p.matched, p.skipRes, p.hasProb, p.prob, q, p.hasPrio, p.prio, p.hasSub, p.sub),
+	parts := []string{fmt.Sprintf("profile %d %d %d %d %d %s %d %d %d %d %d %d", p.name, p.matched, p.skipRes, p.hasProb, p.prob, q, p.hasPrio, p.prio, p.hasSub, p.sub,
+		vB(p.probInvalid), vB(p.pcMissing)),
 		c13EncKVs(p.labels), strconv.Itoa(len(p.keyMap))}
 	for _, m := range p.keyMap {
 		parts = append(parts, strconv.Itoa(m[0]), strconv.Itoa(m[1]))
@@ -621,7 +625,11 @@ func c13GenProfiles(r *vRand, pod *corev1.Pod) []c13Profile {
 	for _, id := range ids {
 		p := c13Profile{name: id, matched: vB(!r.Chance(1, 8)), skipRes: vB(r.Chance(1, 12))}
 		if r.Chance(1, 4) {
-			p.hasProb, p.prob = 1, int(r.Pick([]int64{0, 0, 30, 50, 100}))
+			p.hasProb, p.prob = 1, int(r.Pick([]int64{0, 0, 30, 30, 50, 50, 100, 100, 1, 99, 150, -5}))
+			p.probPercent = p.prob >= 0 && p.prob <= 100 && r.Chance(1, 3)
+		}
+		if r.Chance(1, 40) {
+			p.probInvalid = true
 		}
 		if r.Chance(1, 2) {
 			p.hasQoS = true
@@ -633,6 +641,9 @@ func c13GenProfiles(r *vRand, pod *corev1.Pod) []c13Profile {
 		}
 		if r.Chance(1, 2) {
 			p.hasPrio, p.prio = 1, int64(c13PriorityIn(r, int(r.Pick([]int64{3, 3, 3, 2, 2, 1, 4, 0}))))
+		}
+		if p.hasPrio == 0 && r.Chance(1, 30) {
+			p.pcMissing = true
 		}
 		if r.Chance(1, 5) {
 			p.hasSub, p.sub = 1, int64(r.Range(0, 5))
@@ -747,7 +758,17 @@ func c13ProfileObjects(ps []c13Profile) []ctrlclient.Object {
 		}
 		if p.hasProb == 1 {
 			v := intstr.FromInt(p.prob)
+			if p.probPercent {
+				v = intstr.FromString(fmt.Sprintf("%d%%", p.prob))
+			}
 			o.Spec.Probability = &v
+		}
+		if p.probInvalid {
+			v := intstr.FromString("half")
+			o.Spec.Probability = &v
+		}
+		if p.pcMissing {
+			o.Spec.PriorityClassName = "c13-no-such-priority-class"
 		}
 		if p.hasQoS {
 			o.Spec.QoSClass = p.qos
@@ -936,6 +957,182 @@ func c13CheckAnnotation(h *vHarness, pod *corev1.Pod) {
 	}
 }
 
+// c13RunMutatingCase: one case of the mutating harness (ops, observations, oracle); the caller brackets it
+// with h.Begin / h.End.
+func c13RunMutatingCase(h *vHarness, t *testing.T, decoder admission.Decoder, pod *corev1.Pod, profiles []c13Profile, create, gate bool, rnd int) {
+	h.Op("pod 0 %s", c13EncPod(pod))
+	for i := range profiles {
+		h.Op("%s", profiles[i].opLine())
+	}
+	client := fake.NewClientBuilder().WithScheme(scheme.Scheme).WithObjects(c13ProfileObjects(profiles)...).Build()
+	handler := &PodMutatingHandler{Client: client, Decoder: decoder}
+	randIntnFn = func(int) int { return rnd }
+	restore := feature.SetFeatureGateDuringTest(t, feature.DefaultMutableFeatureGate, features.ColocationProfileSkipMutatingResources, gate)
+	op := admissionv1.Create
+	if !create {
+		op = admissionv1.Update
+	}
+	req := admission.Request{AdmissionRequest: admissionv1.AdmissionRequest{
+		Resource:  metav1.GroupVersionResource{Group: "", Version: "v1", Resource: "pods"},
+		Operation: op, Object: runtime.RawExtension{}, OldObject: runtime.RawExtension{}}}
+
+	admit := func(p *corev1.Pod) (ok bool, lines []string) {
+		h.Op("mutate %d %d %d", vB(create), vB(gate), rnd)
+		var m1 bool
+		var err1, err2 error
+		if h.Guard(func() {
+			m1, err1 = handler.clusterColocationProfileMutatingPod(context.TODO(), req, p)
+			if err1 == nil && create {
+				_, err2 = handler.extendedResourceSpecMutatingPod(context.TODO(), req, p)
+			}
+		}) {
+			h.Obs("panic")
+			return false, nil
+		}
+		if err1 != nil {
+			h.Obs("err1")
+			h.Tag("admit:error")
+			return false, nil
+		}
+		h.Obs("mut %d", vB(m1))
+		if err2 != nil {
+			h.Obs("err")
+			h.Tag("ext:error")
+			return false, nil
+		}
+		return true, c13Obs(h, p)
+	}
+
+	before := pod.DeepCopy()
+	ok, first := admit(pod)
+	if ok && create {
+		// the same admission through the real entry point handleCreate (all its steps, in the source's
+		// order): the summary annotation must match the final spec there too, and the class fields /
+		// resources / annotation must be those of the two steps driven above
+		whole := before.DeepCopy()
+		var herr error
+		if h.Guard(func() { _, herr = handler.handleCreate(context.TODO(), req, whole) }) || herr != nil {
+			h.Fail("C13:handle-create-failed", "handleCreate failed on a pod its first two steps admit: %v", herr)
+		} else {
+			c13CheckAnnotation(h, whole)
+			var lines []string
+			lines = append(lines, "meta "+c13EncMeta(whole))
+			for i := range whole.Spec.InitContainers {
+				lines = append(lines, "c 0 "+c13EncCtrObs(&whole.Spec.InitContainers[i]))
+			}
+			for i := range whole.Spec.Containers {
+				lines = append(lines, "c 1 "+c13EncCtrObs(&whole.Spec.Containers[i]))
+			}
+			lines = append(lines, "ann "+c13EncAnnot(whole.Annotations))
+			var want []string
+			for _, l := range first {
+				if !strings.HasPrefix(l, "ov ") && !strings.HasPrefix(l, "pl ") {
+					want = append(want, l)
+				}
+			}
+			if strings.Join(lines, "\n") != strings.Join(want, "\n") {
+				h.Fail("C13:handle-create-differs", "handleCreate does not give the pod of its first two steps")
+			}
+		}
+	}
+	if ok {
+		h.Tag("admit:ok")
+		// ---- property oracle on the first admission ----
+		anyMatched, anySkipRes, appliedSimple, resPatched := false, false, true, false
+		for i := range profiles {
+			p := &profiles[i]
+			if p.matched == 1 {
+				anyMatched = true
+				if p.skipRes == 1 {
+					anySkipRes = true
+				}
+				if create && !p.skipped(rnd) {
+					if !p.simple() {
+						appliedSimple = false
+					}
+					if len(p.patchRes) > 0 {
+						resPatched = true
+					}
+					if len(p.keyMap) > 0 {
+						h.Tag("profile:keymap")
+					}
+					if len(p.suffixes) > 0 {
+						h.Tag("profile:suffix")
+					}
+					if p.hasPatch {
+						h.Tag("profile:patch")
+					}
+					if len(p.labels) > 0 {
+						h.Tag("profile:labels")
+					}
+				}
+			}
+		}
+		nonNeg := c13AllNonNegative(before)
+		if !nonNeg {
+			h.Tag("quantities:negative")
+		}
+		if before.Spec.Resources != nil {
+			h.Tag("podlevel:set")
+		}
+		pc := c13OraclePC(pod) // explicit class of the pod as admitted (after the profiles)
+		h.Tag("class:" + pc)
+		tier, isTier := c13Tier[pc]
+		if create && anyMatched && !anySkipRes && !gate && isTier {
+			for _, cs := range [][]corev1.Container{pod.Spec.InitContainers, pod.Spec.Containers} {
+				for i := range cs {
+					for _, l := range []corev1.ResourceList{cs[i].Resources.Requests, cs[i].Resources.Limits} {
+						for _, n := range []corev1.ResourceName{"cpu", "memory"} {
+							if _, ok := l[n]; ok {
+								h.Fail("C13:native-left", "container %s still has %s after translation", cs[i].Name, n)
+							}
+						}
+					}
+				}
+			}
+		}
+		// amounts: compared against the pod before admission, so only when no applied profile patched
+		// resources, and (the statement speaks of amounts) only for non-negative quantities
+		if create && anyMatched && !anySkipRes && !gate && isTier && !resPatched && nonNeg {
+			h.Tag("translated:" + pc)
+			h.Nontrivial()
+			for li, lists := range [][2][]corev1.Container{{before.Spec.InitContainers, pod.Spec.InitContainers}, {before.Spec.Containers, pod.Spec.Containers}} {
+				if len(lists[0]) != len(lists[1]) {
+					h.Fail("C13:container-count", "containers added or removed")
+					continue
+				}
+				for i := range lists[0] {
+					where := fmt.Sprintf("list %d container %d", li, i)
+					b, a := lists[0][i].Resources, lists[1][i].Resources
+					c13CheckList(h, where+" limits", tier, b.Limits, a.Limits, false, nil)
+					c13CheckList(h, where+" requests", tier, b.Requests, a.Requests, true, a.Limits)
+				}
+			}
+			c13CheckList(h, "overhead", tier, before.Spec.Overhead, pod.Spec.Overhead, false, nil)
+		}
+		if create {
+			c13CheckAnnotation(h, pod)
+		}
+		// ---- admitting the result again changes nothing ----
+		// (demanded exactly under the hypothesis of theorem readmission_idempotent: every applied
+		// profile is simple; label suffixes / key mappings / resource patches are not idempotent by design)
+		again := pod.DeepCopy()
+		ok2, second := admit(again)
+		if appliedSimple {
+			h.Tag("readmit:simple")
+			if !ok2 {
+				h.Fail("C13:not-idempotent", "re-admission of an admitted pod failed")
+			} else if strings.Join(first, "\n") != strings.Join(second, "\n") {
+				h.Fail("C13:not-idempotent", "re-admission changed the pod")
+			}
+		} else {
+			h.Tag("readmit:not-simple")
+		}
+	}
+	restore()
+	h.Tag(fmt.Sprintf("profiles:%d", len(profiles)))
+}
+
 func TestVerifC13Mutating(t *testing.T) {
 	h := vOpen("C13")
 	if h == nil {
@@ -955,152 +1152,102 @@ func TestVerifC13Mutating(t *testing.T) {
 		gate := r.Chance(1, 15)
 		rnd := int(r.Pick([]int64{0, 29, 30, 31, 50, 51, 99}))
 
-		h.Op("pod 0 %s", c13EncPod(pod))
-		for i := range profiles {
-			h.Op("%s", profiles[i].opLine())
-		}
-		client := fake.NewClientBuilder().WithScheme(scheme.Scheme).WithObjects(c13ProfileObjects(profiles)...).Build()
-		handler := &PodMutatingHandler{Client: client, Decoder: decoder}
-		randIntnFn = func(int) int { return rnd }
-		restore := feature.SetFeatureGateDuringTest(t, feature.DefaultMutableFeatureGate, features.ColocationProfileSkipMutatingResources, gate)
-		op := admissionv1.Create
-		if !create {
-			op = admissionv1.Update
-		}
-		req := admission.Request{AdmissionRequest: admissionv1.AdmissionRequest{
-			Resource:  metav1.GroupVersionResource{Group: "", Version: "v1", Resource: "pods"},
-			Operation: op, Object: runtime.RawExtension{}, OldObject: runtime.RawExtension{}}}
+		c13RunMutatingCase(h, t, decoder, pod, profiles, create, gate, rnd)
+		h.End()
+	}
+	h.Close("one pod (QoS/priority by label, value, profile or default; a foreign label; 0-4 containers, 0-2 init containers (1/3 sidecars), overhead, " +
+		"pod-level resources (1/8); cpu/memory/batch/mid/foreign quantities integral, milli, sub-milli, nano, binary, zero, 1/12 of the pods with negative " +
+		"entries; requests=limits / limits only / requests only / independent / empty; stale, broken, representation-variant or absent summary " +
+		"annotation) x 0-3 colocation profiles (match/no match, skip annotation, probability, qosClass, priorityClassName, koordinatorPriority, " +
+		"labels, labelKeysMapping, labelSuffixes, strategic-merge patch of labels / spec.priority / container resources) x operation x feature gate; " +
+		"admitted twice through the two steps and once through handleCreate; non-trivial = explicit mid/batch pod that goes through translation; " +
+		"distinct by op lines")
+}
 
-		admit := func(p *corev1.Pod) (ok bool, lines []string) {
-			h.Op("mutate %d %d %d", vB(create), vB(gate), rnd)
-			var m1 bool
-			var err1, err2 error
-			if h.Guard(func() {
-				m1, err1 = handler.clusterColocationProfileMutatingPod(context.TODO(), req, p)
-				if err1 == nil && create {
-					_, err2 = handler.extendedResourceSpecMutatingPod(context.TODO(), req, p)
-				}
-			}) {
-				h.Obs("panic")
-				return false, nil
-			}
-			if err1 != nil {
-				h.Obs("err1")
-				return false, nil
-			}
-			h.Obs("mut %d", vB(m1))
-			if err2 != nil {
-				h.Obs("err")
-				h.Tag("ext:error")
-				return false, nil
-			}
-			return true, c13Obs(h, p)
+// TestVerifC13MutatingExhaustive (thorough tier): the translation on a small scope.  One container with every
+// presence pattern of requests.cpu {absent, 500m, 0.0005} x limits.cpu {absent, 1} x requests.memory
+// {absent, 1Gi} x limits.memory {absent, 2Gi} x requests.batch-cpu {absent, 200} x limits.batch-cpu
+// {absent, 300} x requests.mid-memory {absent, 64Mi}, x the source of the class (priority value in each
+// range, or none with QoS BE / LS / no label = Kubernetes default) x overhead {nil, cpu 100m} x profile
+// {none, one simple BE/batch profile, one mid profile by label patch, one skip-update-resources profile}.
+// Same ops, observations and oracle as the random stream.
+func TestVerifC13MutatingExhaustive(t *testing.T) {
+	h := vOpen("C13")
+	if h == nil {
+		t.Skip("VERIF_OUT not set")
+	}
+	defer func(f func(int) int) { randIntnFn = f }(randIntnFn)
+	decoder := admission.NewDecoder(scheme.Scheme)
+	type src struct {
+		prio int32 // 0 = none
+		qos  string
+	}
+	srcs := []src{{9500, ""}, {7500, ""}, {5500, ""}, {3500, ""}, {0, "BE"}, {0, "LS"}, {0, ""}}
+	opt := func(l corev1.ResourceList, name corev1.ResourceName, v string) {
+		if v != "" {
+			l[name] = resource.MustParse(v)
 		}
-
-		before := pod.DeepCopy()
-		ok, first := admit(pod)
-		if ok {
-			h.Tag("admit:ok")
-			// ---- property oracle on the first admission ----
-			anyMatched, anySkipRes, appliedSimple, resPatched := false, false, true, false
-			for i := range profiles {
-				p := &profiles[i]
-				if p.matched == 1 {
-					anyMatched = true
-					if p.skipRes == 1 {
-						anySkipRes = true
-					}
-					if create && !p.skipped(rnd) {
-						if !p.simple() {
-							appliedSimple = false
-						}
-						if len(p.patchRes) > 0 {
-							resPatched = true
-						}
-						if len(p.keyMap) > 0 {
-							h.Tag("profile:keymap")
-						}
-						if len(p.suffixes) > 0 {
-							h.Tag("profile:suffix")
-						}
-						if p.hasPatch {
-							h.Tag("profile:patch")
-						}
-						if len(p.labels) > 0 {
-							h.Tag("profile:labels")
-						}
-					}
-				}
-			}
-			nonNeg := c13AllNonNegative(before)
-			if !nonNeg {
-				h.Tag("quantities:negative")
-			}
-			if before.Spec.Resources != nil {
-				h.Tag("podlevel:set")
-			}
-			pc := c13OraclePC(pod) // explicit class of the pod as admitted (after the profiles)
-			h.Tag("class:" + pc)
-			tier, isTier := c13Tier[pc]
-			if create && anyMatched && !anySkipRes && !gate && isTier {
-				for _, cs := range [][]corev1.Container{pod.Spec.InitContainers, pod.Spec.Containers} {
-					for i := range cs {
-						for _, l := range []corev1.ResourceList{cs[i].Resources.Requests, cs[i].Resources.Limits} {
-							for _, n := range []corev1.ResourceName{"cpu", "memory"} {
-								if _, ok := l[n]; ok {
-									h.Fail("C13:native-left", "container %s still has %s after translation", cs[i].Name, n)
+	}
+	profileSets := [][]c13Profile{
+		nil,
+		{{name: 1, matched: 1, hasQoS: true, qos: "BE", hasPrio: 1, prio: 5500}},
+		{{name: 2, matched: 1, hasPatch: true, patchLabels: []c13KV{{1, "koord-mid"}}}},
+		{{name: 3, matched: 1, skipRes: 1, hasQoS: true, qos: "BE", hasPrio: 1, prio: 5999}},
+	}
+	idx := 0
+	for _, sc := range srcs {
+		for _, rc := range []string{"", "500m", "0.0005"} {
+			for _, lc := range []string{"", "1"} {
+				for _, rm := range []string{"", "1Gi"} {
+					for _, lm := range []string{"", "2Gi"} {
+						for _, rb := range []string{"", "200"} {
+							for _, lb := range []string{"", "300"} {
+								for _, rmm := range []string{"", "64Mi"} {
+									for _, ov := range []string{"", "100m"} {
+										for pi, ps := range profileSets {
+											r := h.Begin(idx)
+											idx++
+											if r == nil {
+												continue
+											}
+											pod := &corev1.Pod{ObjectMeta: metav1.ObjectMeta{Namespace: "default", Name: "p"}}
+											if sc.qos != "" {
+												pod.Labels = map[string]string{c13LabelQoS: sc.qos}
+											}
+											if sc.prio != 0 {
+												v := sc.prio
+												pod.Spec.Priority = &v
+											}
+											req, lim := corev1.ResourceList{}, corev1.ResourceList{}
+											opt(req, "cpu", rc)
+											opt(lim, "cpu", lc)
+											opt(req, "memory", rm)
+											opt(lim, "memory", lm)
+											opt(req, "kubernetes.io/batch-cpu", rb)
+											opt(lim, "kubernetes.io/batch-cpu", lb)
+											opt(req, "kubernetes.io/mid-memory", rmm)
+											pod.Spec.Containers = []corev1.Container{{Name: "c0", Resources: corev1.ResourceRequirements{Requests: req, Limits: lim}}}
+											if ov != "" {
+												pod.Spec.Overhead = corev1.ResourceList{"cpu": resource.MustParse(ov)}
+											}
+											profiles := append([]c13Profile(nil), ps...)
+											h.Tag(fmt.Sprintf("x:profileset:%d", pi))
+											c13RunMutatingCase(h, t, decoder, pod, profiles, true, false, 0)
+											h.End()
+										}
+									}
 								}
 							}
 						}
 					}
 				}
 			}
-			// amounts: compared against the pod before admission, so only when no applied profile patched
-			// resources, and (the statement speaks of amounts) only for non-negative quantities
-			if create && anyMatched && !anySkipRes && !gate && isTier && !resPatched && nonNeg {
-				h.Tag("translated:" + pc)
-				h.Nontrivial()
-				for li, lists := range [][2][]corev1.Container{{before.Spec.InitContainers, pod.Spec.InitContainers}, {before.Spec.Containers, pod.Spec.Containers}} {
-					if len(lists[0]) != len(lists[1]) {
-						h.Fail("C13:container-count", "containers added or removed")
-						continue
-					}
-					for i := range lists[0] {
-						where := fmt.Sprintf("list %d container %d", li, i)
-						b, a := lists[0][i].Resources, lists[1][i].Resources
-						c13CheckList(h, where+" limits", tier, b.Limits, a.Limits, false, nil)
-						c13CheckList(h, where+" requests", tier, b.Requests, a.Requests, true, a.Limits)
-					}
-				}
-				c13CheckList(h, "overhead", tier, before.Spec.Overhead, pod.Spec.Overhead, false, nil)
-			}
-			if create {
-				c13CheckAnnotation(h, pod)
-			}
-			// ---- admitting the result again changes nothing ----
-			// (demanded exactly under the hypothesis of theorem readmission_idempotent: every applied
-			// profile is simple; label suffixes / key mappings / resource patches are not idempotent by design)
-			again := pod.DeepCopy()
-			ok2, second := admit(again)
-			if appliedSimple {
-				h.Tag("readmit:simple")
-				if !ok2 {
-					h.Fail("C13:not-idempotent", "re-admission of an admitted pod failed")
-				} else if strings.Join(first, "\n") != strings.Join(second, "\n") {
-					h.Fail("C13:not-idempotent", "re-admission changed the pod")
-				}
-			} else {
-				h.Tag("readmit:not-simple")
-			}
 		}
-		restore()
-		h.Tag(fmt.Sprintf("profiles:%d", len(profiles)))
-		h.End()
 	}
-	h.Close("one pod (QoS/priority by label, value, profile or default; 0-4 containers, 0-2 init containers, overhead; cpu/memory/batch/mid/foreign " +
-		"quantities integral, milli, sub-milli, nano, binary; requests=limits / limits only / requests only / independent / empty; stale, broken " +
-		"or absent summary annotation) x 0-3 colocation profiles (match/no match, skip annotation, probability, QoS, priority class, label) x " +
-		"operation x feature gate; admitted twice; non-trivial = explicit mid/batch pod that goes through translation; distinct by op lines")
+	h.Extra("exhaustive", fmt.Sprintf("7 class sources x 192 container shapes x 2 overheads x 4 profile sets: %d cases", idx))
+	h.Close("exhaustive enumeration: one container over every presence pattern of requests/limits cpu, memory, batch-cpu and requests mid-memory " +
+		"(sub-milli and milli cpu), x class source (priority value per range, QoS BE / LS, Kubernetes default) x overhead x {no profile, simple " +
+		"batch profile, mid-by-label-patch profile, skip-update-resources profile}; admitted twice + through handleCreate; non-trivial as in the random stream")
 }
 
 var _ = sort.Ints
